@@ -54,6 +54,7 @@ type Directives struct {
 	CyclicLemma bool // lemma on a cycle of lemma uses (uses inside the cycle give no facts)
 	Decreases string // lemma: termination measure for self-recursive (inductive) use
 	MonotoneFalse map[string]bool // boolean locals that may only be lowered
+	MonotoneMap   map[string]bool // boolean-valued map locals whose true entries stay true
 	FrameLocal    []string        // array locals (and slices of them) that never escape: dynamic calls cannot touch them
 	Sites     []CallSiteDir // assertions checked immediately before a statement with the given source text
 	CallSites []CallSiteDir // assertions checked in the caller's scope immediately before a named call
@@ -179,6 +180,13 @@ func parseDirectives(cg *ast.CommentGroup) *Directives {
 			}
 			for _, x := range f[1:] {
 				d.MonotoneFalse[x] = true
+			}
+		case "monotone-map":
+			if d.MonotoneMap == nil {
+				d.MonotoneMap = map[string]bool{}
+			}
+			for _, x := range f[1:] {
+				d.MonotoneMap[x] = true
 			}
 		case "frame-local":
 			d.FrameLocal = append(d.FrameLocal, f[1:]...)
